@@ -25,6 +25,10 @@ def one(args):
         mod.run(Engine(None, ov), run)
         known = load_known()
         new = [f for f in run.findings if _match_known(known, f) is None]
+        # a recorded defect that the refactoring merely moved (same property, rule and function, another statement) is still a true
+        # report about that code, not a false alarm
+        moved = [f for f in new if any(k.get("property") == f.prop and k.get("rule") == f.rule and k.get("function") == f.function for k in known)]
+        new = [f for f in new if f not in moved]
         return d, p, [(f.rule, f.function.split(":")[-1], f.statement[:50], f.message[:160]) for f in new], None
     except Exception as exc:  # noqa: BLE001
         return d, p, None, f"{type(exc).__name__}: {exc}"
